@@ -33,7 +33,7 @@ from .exceptions import (
 )
 from .frame_buffer import FrameBuffer
 from .settings import Settings, SettingCodes, _validate_setting
-from .stream import H2Stream, StreamClosedBy
+from .stream import H2Stream, StreamClosedBy, StreamState
 from .utilities import SizeLimitDict, guard_increment_window
 from .windows import WindowManager
 
@@ -773,6 +773,16 @@ class H2Connection:
                     "Servers cannot open stream %d with HEADERS" % stream_id
                 )
 
+            max_open_streams = self.remote_settings.max_concurrent_streams
+            if (self.open_outbound_streams + 1) > max_open_streams:
+                raise TooManyStreamsError(
+                    "Max outbound streams is %d, %d open" %
+                    (max_open_streams, self.open_outbound_streams)
+                )
+        elif (self.streams[stream_id].state_machine.state ==
+                StreamState.RESERVED_LOCAL):
+            # A promised stream does not count towards the peer's limit until
+            # its response starts: this is the frame that makes it count.
             max_open_streams = self.remote_settings.max_concurrent_streams
             if (self.open_outbound_streams + 1) > max_open_streams:
                 raise TooManyStreamsError(
@@ -1611,7 +1621,11 @@ class H2Connection:
         """
         # If necessary, check we can open the stream. Also validate that the
         # stream ID is valid.
-        if frame.stream_id not in self.streams:
+        if (frame.stream_id not in self.streams or
+                self.streams[frame.stream_id].state_machine.state ==
+                StreamState.RESERVED_REMOTE):
+            # Either a new stream, or a promised stream that starts to count
+            # towards our limit now that its response begins.
             max_open_streams = self.local_settings.max_concurrent_streams
             if (self.open_inbound_streams + 1) > max_open_streams:
                 raise TooManyStreamsError(
